@@ -151,10 +151,11 @@ Print Assumptions C08_sample_index_own.
 (** The boolean specification evaluated on the implementation's observed global
     logs ([log_sb], a monitor independent of [step]) accepts the log of every
     execution of the model - any thread count, interleaving and fault set
-    (sample size fixed for the run, as when sample_size is given). *)
-Theorem C08_log_sb_model : forall c n,
-  (forall r, ssize c r = n) -> 1 <= nthreads c -> fixed_code c ->
-  forall tr, log_sb (nthreads c) n (events c (init c) tr) = true.
+    and any sample size per round ([ssize c r]: constant when sample_size is
+    given, 1, 2, 4, ... while the sample size is being tuned). *)
+Theorem C08_log_sb_model : forall c,
+  1 <= nthreads c -> fixed_code c ->
+  forall tr, log_sb (nthreads c) (ssize c) (events c (init c) tr) = true.
 Proof. exact log_sb_model. Qed.
 Print Assumptions C08_log_sb_model.
 
@@ -193,8 +194,8 @@ Print Assumptions C08_wait_count_const.
 
 (** The same for the full log, which since hook H5 also contains the barrier
     waits performed by the guard while a thread unwinds. *)
-Theorem C08_log_sb_model_full : forall c n,
-  (forall r, ssize c r = n) -> 1 <= nthreads c -> fixed_code c ->
-  forall tr, log_sb (nthreads c) n (events_full c (init c) tr) = true.
+Theorem C08_log_sb_model_full : forall c,
+  1 <= nthreads c -> fixed_code c ->
+  forall tr, log_sb (nthreads c) (ssize c) (events_full c (init c) tr) = true.
 Proof. exact log_sb_model_full. Qed.
 Print Assumptions C08_log_sb_model_full.
